@@ -658,6 +658,12 @@ func c04errorsCase(c *vf.Ctx, i int) {
 		n = 65 + (i - 16)
 	case c.R.Intn(3) == 0:
 		n = c.R.Intn(16)
+	case c.R.Intn(2) == 0:
+		// a legal length plus a multiple of a power of two: wraps back into
+		// 16..64 when the length (or the bit count) is squeezed into a
+		// narrower integer type
+		n = (16 + c.R.Intn(49)) + (1+c.R.Intn(4))<<uint(8+c.R.Intn(10))
+		c.Inc("illegal_seed_len_legal_plus_multiple_of_power_of_two")
 	default:
 		n = 65 + c.R.SkewLen(4000)
 	}
@@ -751,7 +757,7 @@ func init() {
 				Init: func(vf.Tier, uint64) any { return &c04shared{} }},
 			{Name: "leadzero", N: func(t vf.Tier) int { return t.Sz(480, 6400) }, Run: c04leadzeroCase},
 			{Name: "pathsdeep", N: func(t vf.Tier) int { return t.Sz(64, 1200) }, Run: c04deepCase, MaxCaseSec: 120},
-			{Name: "errors", N: func(t vf.Tier) int { return t.Sz(96, 2000) }, Run: c04errorsCase},
+			{Name: "errors", N: func(t vf.Tier) int { return t.Sz(600, 4000) }, Run: c04errorsCase},
 		},
 	})
 }
